@@ -13,9 +13,10 @@ import SwV.Spec.C20
 import SwV.Lemmas.C18
 import SwV.Lemmas.C20
 import SwV.Lemmas.C21
+import SwV.Lemmas.C20Batch
 
 namespace SwV.Props.C20
-open SwV.Model.C18 SwV.Lemmas.C18 SwV.Lemmas.C20
+open SwV.Model.C18 SwV.Lemmas.C18 SwV.Lemmas.C20 SwV.Lemmas.C20Batch
 
 /-- file ids handed to the two deletion sinks by one operation -/
 def emitted (o : Out) : List Nat := o.q ++ o.d
@@ -107,6 +108,51 @@ example : AllowedRun {} [.create ["a"] { isDir := false, tag := 1, chunks := [1,
   refine ⟨⟨rfl, ?_⟩, trivial⟩
   intro q b hb
   simp at hb
+
+/-! ### recursive delete -/
+
+/-- client contract: directories list no chunks -/
+def DirNoChunks (s : St) : Prop := ∀ x ∈ s.ents, x.2.isDir = true → x.2.chunks = []
+
+/-- recursive delete (of a file or of a whole directory tree) with data deletion, in the plain world: gc_safe and
+    gc_complete hold — exactly the chunks of the removed subtree are handed to the deletion sink -/
+theorem gc_recursive_delete (s : St) (inv : TreeInv s) (pl : Plain s) (ex : Excl s) (dn : DirNoChunks s)
+    (n : String) (par : RPath) (e : Entry) (h : find s (n :: par) = some e) :
+    (deleteEntry s (n :: par) true true).2.1 = Res.ok ∧
+    GcOk s (deleteEntry s (n :: par) true true).1 (deleteEntry s (n :: par) true true).2.2 := by
+  have inv' : TreeInv (deleteEntry s (n :: par) true true).1 := inv_deleteEntry inv
+  rcases deleteEntry_recursive_shape inv n par e h with ⟨s', dcs, heq, hx, hsound, hcomp⟩
+  rw [heq] at inv' ⊢
+  simp only at inv' ⊢
+  rcases find_stored inv h with ⟨e0, hm, _⟩
+  have he : e0 = e := by
+    have := find_plain inv pl hm
+    rw [h] at this
+    exact (Option.some.inj this).symm
+  subst he
+  have pl' : Plain s' := fun y hy => pl y ((hx y).mp hy).1
+  refine ⟨trivial, pl', ?_, ?_, ?_⟩
+  · intro p1 p2 a b ha hb hne c hc
+    exact ex p1 p2 a b ((hx _).mp ha).1 ((hx _).mp hb).1 hne c hc
+  · intro c hc hr
+    rcases (referenced_plain inv' pl' c).mp hr with ⟨q, b, hq, hcb⟩
+    rcases (hx (q, b)).mp hq with ⟨hq', hnot⟩
+    rcases List.mem_append.mp hc with hc | hc
+    · exact ex (n :: par) q e0 b hm hq' (fun hh => hnot (hh ▸ List.suffix_refl _)) c hc hcb
+    · rcases hsound c hc with ⟨q0, b0, hq0, hpd, hcb0⟩
+      exact ex q0 q b0 b hq0 hq' (fun hh => hnot (hh ▸ hpd.1)) c hcb0 hcb
+  · intro c hc hnc
+    rcases (referenced_plain inv pl c).mp hc with ⟨q, b, hq, hcb⟩
+    by_cases hsuf : (n :: par) <:+ q
+    · by_cases hqp : q = n :: par
+      · subst hqp
+        rw [mem_unique inv.nodup hq hm] at hcb
+        exact List.mem_append_left _ hcb
+      · refine List.mem_append_right _ ?_
+        cases hbd : b.isDir with
+        | true => rw [dn _ hq hbd] at hcb; simp at hcb
+        | false => exact hcomp q b hq ⟨hsuf, hqp⟩ hbd (pl _ hq) c hcb
+    · exact absurd ((referenced_plain inv' pl' c).mpr ⟨q, b, (hx (q, b)).mpr ⟨hq, hsuf⟩, hcb⟩) hnc
 
 /-! ### hard-linked names under the client protocol -/
 
